@@ -595,6 +595,66 @@ def scenario_blocked_transfers(r):
     return " ".join(("S 1 a 1 S 2 a 2 M " + " ".join(main)).split())
 
 
+def scenario_slot_owns_signal(r):
+    """a functor copy co-owns (shared_ptr) the signal object it is connected to, or another signal's; the
+    program releases its own handles, so the last owner of a list is a slot stored in a list: the object
+    dies inside the library call that destroys that functor (erase on disconnect, sweep after an emission,
+    clear, invalidation by a dying trackable, destruction of another signal)"""
+    rk = r.choice("iiv")
+    acc = 0 if r.random() < 0.25 else -1
+    accs = "A 0 %s " % r.choice(["awalk 2", "awalkrev 2", "aderef 2 ainc 2 aderef 2"]) if acc == 0 else ""
+    two = r.random() < 0.5                       # the owner sits in signal 1 and owns signal 0, or sits in signal 0 itself
+    host = 1 if two else 0
+    main = ["gnew 0 %s %d %d" % (rk, acc, r.randint(0, 1)), "gshare 0"]
+    if two:
+        main += ["gnew 1 %s -1 0" % rk]
+    T = 0
+    use_t = r.random() < 0.5
+    if use_t:
+        main += ["tnew %d" % T]
+    # bystanders in signal 0 (some bound to the trackable), then the owner (body 5) in the host signal
+    nby = r.randint(0, 2)
+    sid = 0
+    for _ in range(nby):
+        if use_t and r.random() < 0.6:
+            main += ["snew %d %s 2 %s 1 %d" % (sid, rk, r.choice("mnkb"), T)]
+        else:
+            main += ["snew %d %s 3 p 0" % (sid, rk)]
+        main += ["gconn 0 %d %d 0 0" % (sid, sid), "sdel %d" % sid]
+        sid += 1
+    owner = sid
+    if use_t and r.random() < 0.5:
+        main += ["snew %d %s 5 %s 1 %d" % (owner, rk, r.choice("mnkb"), T)]
+        owner_tracked = True
+    else:
+        main += ["snew %d %s 5 p 0" % (owner, rk)]
+        owner_tracked = False
+    main += ["gconn %d %d %d %d 0" % (host, owner, owner, r.randint(0, 1)), "sdel %d" % owner, "grel 0", "probe"]
+    how = r.choice(["cdisc", "self", "tdel", "clear", "hostdel"] if two else ["cdisc", "self", "tdel"])
+    scripts = {2: [], 3: [], 5: []}
+    if how == "cdisc":
+        main += ["cdisc %d" % owner]
+    elif how == "self":
+        scripts[5] = ["cdisc %d" % owner] + (["cq %d" % owner] if r.random() < 0.5 else [])
+        main += ["gemit %d %d 1" % (host, r.randint(0, 9))]
+    elif how == "tdel" and owner_tracked:
+        main += ["tdel %d" % T]
+    elif how == "clear" and two:
+        main += ["gclear 1"]
+    elif how == "hostdel" and two:
+        main += ["gdel 1"]
+    else:
+        main += ["cdisc %d" % owner]
+    main += ["probe"] + ["cq %d" % k for k in range(0, owner + 1)]
+    if two and how != "hostdel":
+        main += ["gq 1", "gemit 1 2 1", "gdel 1"]
+    if use_t:
+        main += ["tdel %d" % T]
+    main += ["cdel %d" % k for k in range(0, owner + 1)] + ["probe"]
+    parts = ["S %d a %d %s" % (b, b, " ".join(ops)) for b, ops in scripts.items()]
+    return " ".join((accs + " ".join(parts) + " O 5 1 2000 M " + " ".join(main)).split())
+
+
 SCENARIOS = [scenario_owner_sweep] * 6 + [scenario_last_handle] * 3 + [scenario_blocked_transfers] * 3 + [scenario_deep_recursion]
 
 
